@@ -93,6 +93,14 @@ func (p *LeakyBucketPacer) AddStream(ssrc uint32, writer interceptor.RTPWriter) 
 	p.ssrcToWriter[ssrc] = writer
 }
 
+// RemoveStream removes a stream and its writer from the pacer. Packets of the
+// stream that are still queued are dropped when their turn comes.
+func (p *LeakyBucketPacer) RemoveStream(ssrc uint32) {
+	p.writerLock.Lock()
+	defer p.writerLock.Unlock()
+	delete(p.ssrcToWriter, ssrc)
+}
+
 // SetTargetBitrate updates the target bitrate at which the pacer is allowed to
 // send packets. The pacer may exceed this limit by p.f.
 func (p *LeakyBucketPacer) SetTargetBitrate(rate int) {
